@@ -92,6 +92,11 @@ def alphabet(r, base):
     # not an entry: an end-of-archive marker and 21 bytes of padding (a failed header read consumes 22 bytes) – whatever follows lies
     # BEHIND the end of the archive and must never be extracted, also not after the deferred links have been made
     A.append(T.Entry("raw", b"", data=bytes(22)))                                    # 53
+    # FILE members (and a directory entry with a file name) whose stored directory is ".." after the C-string cut at a NUL byte – no
+    # trailing separator, so it is not a path component: the tool's name is "..NAME" inside the extraction directory, never "../NAME"
+    A.append(T.Entry("file", b"..\x00/nulcut1", data=b"NULCUT1"))                    # 54
+    A.append(T.Entry("file", b"d/..\x00/nulcut2", data=b"NULCUT2"))                  # 55
+    A.append(T.Entry("file", b"x/../..\x00/nulcut3", data=b"NULCUT3"))               # 56
     # every file member records a modification time (a metadata call is one more thing that can land outside)
     for i, e in enumerate(A):
         if e.kind == "file" and not e.mtime:
@@ -130,6 +135,8 @@ def gen_cases(ctx, n):
                      for b, y in enumerate(al) if y.kind == "file" and y.path.startswith(x.path + b"/")]
             a, b = r.choice(pairs)
             idxs = [r.randrange(128) for _ in range(r.randrange(0, 3))] + [a, raw, b] + [r.randrange(128) for _ in range(r.randrange(0, 2))]
+        if i % 6 == 4:
+            idxs = [r.randrange(128) for _ in range(r.randrange(0, 3))] + [r.choice([54, 55, 56])] + [r.randrange(128) for _ in range(r.randrange(0, 2))]
         level = r.choice([0, 1, 2, 2])
         style = r.choice([0, 0, 0, 1])
         opts = r.choice([["f"], ["q"], ["q1"], ["f", "i"], ["f", "w" + b"sub".hex()], ["f", "w" + b"sub/../x".hex()]])
